@@ -481,9 +481,14 @@ func chunkUploader(ctx context.Context,
 
 			// iterate over all deduplicated keys from KV and upload the index file
 			// NOTE: we don't compute CRC here.
-			// Keys are marked when scanned over and next instance of the reader will skip those.
+			// Keys are only marked as uploaded once the chunk is stored: a failed attempt must stream them again.
 			if err := indexStore.Put(ctx, indexFile, dbReader, storage.NoOverWrite); err != nil {
 				return err
+			}
+
+			// now that the chunk is safely stored, mark its keys: next instance of the reader will skip those.
+			if err := dbReader.MarkUploaded(); err != nil {
+				return backoff.Permanent(err)
 			}
 
 			uploaded := dbReader.Count()
@@ -1095,6 +1100,7 @@ type dbReader struct {
 	logger    *zap.Logger
 	partial   []byte
 	maxKeys   uint64
+	streamed  [][]byte
 }
 
 func newDBReader(ctx context.Context, db kvStore, indexTime time.Time, logger *zap.Logger, maxKeys uint64) *dbReader {
@@ -1198,10 +1204,8 @@ func (r *dbReader) Read(p []byte) (int, error) {
 			b = key
 			b = append(b, '\n') // add newline to separate keys
 
-			// mark key as read in the DB
-			if err := r.db.Set(key, []byte("X")); err != nil {
-				return 0, fmt.Errorf("failed to mark KV key as read: %w", err)
-			}
+			// remember the key: it is marked as uploaded in the DB when the upload is done
+			r.streamed = append(r.streamed, key)
 
 			r.count++
 		}
@@ -1215,6 +1219,21 @@ func (r *dbReader) Read(p []byte) (int, error) {
 	copy(p, b)
 
 	return len(b), nil
+}
+
+// MarkUploaded marks in the DB all the keys streamed so far as uploaded
+func (r *dbReader) MarkUploaded() error {
+	r.mx.Lock()
+	defer r.mx.Unlock()
+
+	for _, key := range r.streamed {
+		if err := r.db.Set(key, []byte("X")); err != nil {
+			return fmt.Errorf("failed to mark KV key as uploaded: %w", err)
+		}
+	}
+	r.streamed = nil
+
+	return nil
 }
 
 func (r *dbReader) Close() error {
